@@ -33,6 +33,28 @@ if os.path.exists(pf):
 out += '---------------------------------------------------------------------------------------------------\n\n' + rd('80_trusted.md')
 # seeded table
 out += '## 10. Independently seeded breaking changes and which checks catch them\n\n' + rd('90_seeded_intro.md')
+import collections
+def _cls(fr):
+    low = str(fr).lower()
+    if 'missed' in low[:40]: return 'missed'
+    if 'no-input' in low[:60] or 'no-failing-input' in low[:200]: return 'caught, no failing input'
+    if 'only' in low[:30]: return 'caught by another property only'
+    return 'caught'
+_first = collections.defaultdict(collections.Counter); _final = collections.defaultdict(collections.Counter)
+for d in sorted(glob.glob(os.path.join(ROOT, 'seeded', '*'))):
+    m = os.path.join(d, 'meta.json')
+    if not os.path.exists(m):
+        continue
+    j = json.load(open(m)); rnd = (int(os.path.basename(d).split('-')[1]) - 1) // 3 + 1
+    _first[rnd][_cls(j.get('result_first_run', j.get('caught_by', '')))] += 1
+    rf = j.get('result_final')
+    _final[rnd][_cls(rf.get('result') if isinstance(rf, dict) else (rf or j.get('result_first_run', '')))] += 1
+out += '| round | seeds | first run: caught / no failing input / other property only / missed | last run: caught / no failing input / other property only / missed |\n|---|---|---|---|\n'
+for rnd in sorted(_first):
+    f, g = _first[rnd], _final[rnd]
+    ks = ['caught', 'caught, no failing input', 'caught by another property only', 'missed']
+    out += '| %d | %d | %s | %s |\n' % (rnd, sum(f.values()), ' / '.join(str(f[k]) for k in ks), ' / '.join(str(g[k]) for k in ks))
+out += '\n'
 out += '| seed | property | change (summary) | needs | first run | after strengthening |\n|---|---|---|---|---|---|\n'
 for d in sorted(glob.glob(os.path.join(ROOT, 'seeded', '*'))):
     m = os.path.join(d, 'meta.json')
